@@ -566,6 +566,12 @@ func callsRecover(fn *ssa.Function) bool {
 
 func (ex *Exec) selectEffects(fr *Frame, st *State, in *ssa.Select) {
 	ex.note("select: any case may fire, received values unconstrained")
+	// a send case hands its value to another goroutine: call-site clauses named "chan-send" constrain it
+	for _, s := range in.States {
+		if s.Dir == types.SendOnly {
+			ex.checkCallSites(fr, st, "chan-send", []Val{ex.value(fr, st, s.Chan), ex.value(fr, st, s.Send)}, in.Pos())
+		}
+	}
 }
 
 // ---------- syntactic write sets ----------
